@@ -31,6 +31,11 @@ CONSTANTS Issuers,       \* subset of {"trusted","trusted_inter","otherca","self
           Roles,         \* subset of {"server","client"}: the role of the PEER being verified
           Modes,         \* subset of {"receptor","dns","dns_noname"}
           StreamSrcs,    \* set of node ids (token sequences) for the stream-listener family
+          MaxTick,       \* the abstract clock of the "clock" family runs over 0..MaxTick
+          KF_TimeFrozenAtCreation, \* FALSE: the code.  TRUE: the counter-example variant in which the verifier reads the clock
+                         \* when it is CREATED (x509.VerifyOptions / time.Now() hoisted out of the per-handshake closure) and
+                         \* judges every later certificate against that instant; it must FAIL ValidityJudgedAtHandshake
+                         \* (TLSVerify_timefrozen.cfg)
           KF_DigestCachedAcrossCalls, \* FALSE: the code.  TRUE: the counter-example variant in which one verify-function
                          \* instance keeps the digest of the FIRST certificate it saw (digest cache hoisted out of the
                          \* per-call scope); it must FAIL HistoryIndependent (TLSVerify_digestcache.cfg)
@@ -203,13 +208,45 @@ SeqVec(ro, mo, pins, cs) ==
    pins_wellformed |-> TRUE, pins_configurable |-> TRUE, expect |-> [prop |-> TRUE, code |-> TRUE]]
 SeqVectors == { SeqVec(ro, mo, pins, cs) : ro \in Roles, mo \in Modes, pins \in SeqPinLists, cs \in CallSeqs }
 
-AllVectors == TableVectors \cup StreamVectors \cup SeqVectors
+\* ---------------------------------------------------------------- creation and handshake are two steps (family "clock")
+\* A verifier (the function returned by ReceptorVerifyFunc, the tls.Config that carries it) is CREATED at
+\* one instant and used for HANDSHAKES at later instants: a client configuration fetched once by a tcp/unix
+\* proxy, the verifier PrepareTLSServerConfig builds at start-up.  "Currently valid" refers to the clock at the
+\* handshake step.  The abstract clock has ticks 0..MaxTick; a certificate window [nb, na] has its bounds in
+\* -1..MaxTick+1 and contains tick t iff nb <= t <= na (the harness maps a tick to a real instant and puts the
+\* real NotBefore/NotAfter half a tick before/after the bound).  Everything other than time is fine here
+\* (trusted chain, usable for both roles, expected name present, no pins).
+Ticks   == 0..MaxTick
+Bounds  == (0 - 1)..(MaxTick + 1)
+Windows == {w \in Bounds \X Bounds : w[1] <= w[2]}
+InWindow(t, w) == w[1] <= t /\ t <= w[2]
+HandshakeTimes(tc) == { <<t>> : t \in tc..MaxTick } \cup { h \in (tc..MaxTick) \X (tc..MaxTick) : h[1] < h[2] }
+ClockVerdict(tc, t, w) == InWindow(IF KF_TimeFrozenAtCreation THEN tc ELSE t, w)
+ClockClass(tc, t, w) ==
+  CASE InWindow(tc, w) /\ InWindow(t, w) -> "valid_both"
+    [] InWindow(tc, w) /\ t > w[2]       -> "valid_at_creation_expired_at_handshake"
+    [] tc < w[1] /\ InWindow(t, w)       -> "notyet_at_creation_valid_at_handshake"
+    [] tc < w[1] /\ t > w[2]             -> "notyet_at_creation_expired_at_handshake"
+    [] t < w[1]                          -> "notyet_both"
+    [] OTHER                             -> "expired_both"
+ClockVec(ro, mo, tc, w, hs) ==
+  [fam |-> "clock", issuer |-> "trusted", validity |-> "-", usage |-> "both", names |-> "both", pins |-> <<>>, role |-> ro, mode |-> mo,
+   src |-> <<>>, namekind |-> "-", certnames |-> <<>>, seqpins |-> <<>>, calls |-> <<>>,
+   clock |-> [tc |-> tc, nb |-> w[1], na |-> w[2],
+              hs |-> LET H(k) == [at |-> hs[k], accept |-> ClockVerdict(tc, hs[k], w), class |-> ClockClass(tc, hs[k], w)]
+                     IN IF Len(hs) = 1 THEN <<H(1)>> ELSE <<H(1), H(2)>>],
+   conds |-> [chain |-> TRUE, time |-> TRUE, usage |-> TRUE, pin |-> TRUE, name |-> TRUE], nfail |-> 0, only |-> "-",
+   pins_wellformed |-> TRUE, pins_configurable |-> TRUE, expect |-> [prop |-> TRUE, code |-> TRUE]]
+ClockVectors ==
+  UNION { { ClockVec(ro, mo, tc, w, hs) : ro \in Roles, mo \in Modes, w \in Windows, hs \in HandshakeTimes(tc) } : tc \in Ticks }
+
+AllVectors == TableVectors \cup StreamVectors \cup SeqVectors \cup ClockVectors
 
 \* ---------------------------------------------------------------- state machine: one state per vector
 VARIABLE vec
 \* the families are disjoint (field fam); enumerating them one by one spares TLC the element-wise
 \* de-duplication of a union of lazily enumerated sets (measured: 140 s instead of 30 s)
-Init == vec \in TableVectors \/ vec \in StreamVectors \/ vec \in SeqVectors
+Init == vec \in TableVectors \/ vec \in StreamVectors \/ vec \in SeqVectors \/ vec \in ClockVectors
 Next == UNCHANGED vec
 Spec == Init /\ [][Next]_vec
 
@@ -267,6 +304,19 @@ PinnedThenUnpinnedRefused ==
   IsSeq /\ vec.seqpins # <<>> =>
      \A k \in 2..Len(vec.calls) : vec.calls[k - 1].accept /\ ~vec.calls[k].pinok => ~vec.calls[k].accept
 
+\* validity is judged against the clock at the handshake, whenever the verifier was created
+IsClock == vec.fam = "clock"
+ValidityJudgedAtHandshake ==
+  IsClock => \A k \in 1..Len(vec.clock.hs) :
+     /\ vec.clock.hs[k].accept = InWindow(vec.clock.hs[k].at, <<vec.clock.nb, vec.clock.na>>)
+     /\ \A tc2 \in 0..vec.clock.hs[k].at :        \* the creation instant is irrelevant
+           ClockVerdict(tc2, vec.clock.hs[k].at, <<vec.clock.nb, vec.clock.na>>) = vec.clock.hs[k].accept
+\* a certificate that expires while the verifier lives is refused afterwards; one that becomes valid is accepted
+ExpiryAndOnsetObserved ==
+  IsClock => \A k \in 1..Len(vec.clock.hs) :
+     /\ vec.clock.hs[k].class = "valid_at_creation_expired_at_handshake" => ~vec.clock.hs[k].accept
+     /\ vec.clock.hs[k].class = "notyet_at_creation_valid_at_handshake" => vec.clock.hs[k].accept
+
 \* ---------------------------------------------------------------- anti-vacuity witnesses (each must be violated)
 W_NoAccept        == ~(IsTable /\ vec.expect.code)
 W_NoOnlyChain     == ~(IsTable /\ vec.only = "chain")
@@ -285,6 +335,10 @@ W_NoUnpinnedThenPinned == ~(IsSeq /\ Len(vec.calls) >= 2 /\ vec.calls[1].otherok
 W_NoTwoAlgs            == ~(IsSeq /\ Len(vec.seqpins) = 2 /\ vec.seqpins[1].of # vec.seqpins[2].of
                               /\ Len(vec.calls) = 3 /\ vec.calls[1].accept /\ vec.calls[2].accept
                               /\ vec.calls[1].cert # vec.calls[2].cert /\ ~vec.calls[3].accept /\ vec.calls[3].otherok)
+W_NoExpiresWhileAlive == ~(IsClock /\ Len(vec.clock.hs) = 2 /\ vec.clock.hs[1].accept
+                             /\ vec.clock.hs[2].class = "valid_at_creation_expired_at_handshake" /\ ~vec.clock.hs[2].accept)
+W_NoBecomesValid      == ~(IsClock /\ Len(vec.clock.hs) = 2 /\ ~vec.clock.hs[1].accept
+                             /\ vec.clock.hs[2].class = "notyet_at_creation_valid_at_handshake" /\ vec.clock.hs[2].accept)
 \* a source id containing ':' is accepted with its own full name, and its prefix is a refused near miss
 W_NoColonSrcAccept == ~(IsStream /\ HasColon(vec.src) /\ vec.namekind = "src" /\ vec.expect.code)
 W_NoColonPrefixRefused == ~(IsStream /\ HasColon(vec.src) /\ vec.namekind = "codeprefix" /\ vec.only = "name" /\ ~vec.expect.code)
@@ -292,5 +346,5 @@ W_NoColonPrefixRefused == ~(IsStream /\ HasColon(vec.src) /\ vec.namekind = "cod
 \* ---------------------------------------------------------------- export
 ASSUME NameSets \subseteq NameSetUniverse
 ASSUME \A p \in PinLists : Range(p) \subseteq PinKinds
-ASSUME DumpFile = "" \/ ndJsonSerialize(DumpFile, SetToSeq(TableVectors) \o SetToSeq(StreamVectors) \o SetToSeq(SeqVectors))
+ASSUME DumpFile = "" \/ ndJsonSerialize(DumpFile, SetToSeq(TableVectors) \o SetToSeq(StreamVectors) \o SetToSeq(SeqVectors) \o SetToSeq(ClockVectors))
 =============================================================================
